@@ -13,6 +13,7 @@
 #include <cassert>
 #include <cstdlib>
 #include <cstring>
+#include <new>
 
 namespace nix {
 
@@ -85,12 +86,17 @@ void Variant::set(const char *value, const size_t len) {
     void *data;
 
     if (dtype != DataType::String) {
-        dtype = DataType::String;
         data = std::malloc(len_plus_null);
     } else {
         data = std::realloc(v_string, len_plus_null);
     }
 
+    if (data == nullptr) {
+        // nothing has been changed yet: the Variant keeps its old value
+        throw std::bad_alloc();
+    }
+
+    dtype = DataType::String;
     std::memcpy(data, value, len);
     v_string = static_cast<char *>(data);
     v_string[len] = '\0';
